@@ -11,7 +11,9 @@ import (
 	sdk "github.com/cosmos/cosmos-sdk/types"
 
 	keytypes "github.com/ExocoreNetwork/exocore/types/keys"
+	assetstypes "github.com/ExocoreNetwork/exocore/x/assets/types"
 	avstypes "github.com/ExocoreNetwork/exocore/x/avs/types"
+	delegationtypes "github.com/ExocoreNetwork/exocore/x/delegation/types"
 	dogfoodtypes "github.com/ExocoreNetwork/exocore/x/dogfood/types"
 	epochstypes "github.com/ExocoreNetwork/exocore/x/epochs/types"
 	operatorkeeper "github.com/ExocoreNetwork/exocore/x/operator/keeper"
@@ -37,6 +39,7 @@ func keyJSON(j int) string {
 }
 
 const nOps = 2
+
 // unbonding period in dogfood epochs (set in setup)
 var unbondingEpochs int64 = 1
 
@@ -102,6 +105,13 @@ func setup() *world {
 	}
 	for o := 0; o < nOps; o++ {
 		f.RegisterOperator(o)
+		// stake delegated to the operator: 10+o tokens at price 1, so that the voting-power update
+		// at the next epoch end gives it a positive vote power
+		amt := sdkmath.NewInt(int64(10+o) * 1000000) // the asset has 6 decimals
+		f.Env.Ctx = f.Ctx
+		f.Env.PutOperatorAsset(o, verifenv.LSTAssetID(), assetstypes.OperatorAssetInfo{TotalAmount: amt, PendingUndelegationAmount: sdkmath.ZeroInt(), TotalShare: sdkmath.LegacyNewDecFromInt(amt), OperatorShare: sdkmath.LegacyZeroDec()})
+		f.Env.PutDelegation(2, o, verifenv.LSTAssetID(), delegationtypes.DelegationAmounts{UndelegatableShare: sdkmath.LegacyNewDecFromInt(amt), WaitUndelegationAmount: sdkmath.ZeroInt()})
+		verifrt.Assume(f.Deleg.AppendStakerForOperator(f.Ctx, verifenv.OperatorBech[o], verifenv.LSTAssetID(), verifenv.StakerID(2)) == nil)
 		w.current = append(w.current, -1)
 		w.removing = append(w.removing, false)
 		w.optOutDue = append(w.optOutDue, -1)
@@ -147,6 +157,8 @@ func (w *world) keyIndex(k keytypes.WrappedConsKey) int {
 // beginClosingBlock: BeginBlock of the block that closes the current dogfood epoch (the epochs
 // module calls the hook before it stores the incremented epoch number).
 func (w *world) beginClosingBlock() {
+	// hook order of app.go: the operator module recomputes the voting powers before dogfood runs
+	w.f.Operator.EpochsHooks().AfterEpochEnd(w.f.Ctx, verifenv.EpochDay, w.epoch)
 	w.f.Dogfood.EpochsHooks().AfterEpochEnd(w.f.Ctx, verifenv.EpochDay, w.epoch)
 	w.pendingEnd = true
 	w.closing = w.epoch
@@ -209,10 +221,6 @@ func (w *world) step(t int) {
 		var err error
 		if op == 0 {
 			_, err = w.ms.OptIntoAVS(sdk.WrapSDKContext(f.Ctx), &operatortypes.OptIntoAVSReq{FromAddress: verifenv.OperatorBech[o], AvsAddress: w.avs, PublicKeyJSON: keyJSON(j)})
-			if err == nil {
-				// give the operator voting power so that the next epoch end makes it a validator
-				f.PutUSDValue(w.avs, o, operatortypes.OperatorOptedUSDValue{SelfUSDValue: sdkmath.LegacyNewDec(10), TotalUSDValue: sdkmath.LegacyNewDec(10), ActiveUSDValue: sdkmath.LegacyNewDec(int64(10 + o))})
-			}
 		} else {
 			_, err = w.ms.SetConsKey(sdk.WrapSDKContext(f.Ctx), &operatortypes.SetConsKeyReq{Address: verifenv.OperatorBech[o], AvsAddress: w.avs, PublicKeyJSON: keyJSON(j)})
 		}
@@ -378,18 +386,14 @@ func (w *world) checkQueues() {
 	}
 }
 
-// VerifC07KeyRegistry: a bounded sequence of opt-in-with-key, key replacement, opt-out and epoch
-// end operations by two operators over three keys, through the real message server, operator
-// keeper, dogfood hooks and dogfood EndBlock; the registry invariant is asserted after every step.
-func VerifC07KeyRegistry() {
-	w := setup()
+// bootstrap builds the initial state: empty registry, or one / two operators already in the
+// validator set (built with the same operations, so it is a reachable state).
+func (w *world) bootstrap(init int) {
 	// initial state: empty registry, or one / two operators already in the validator set
 	// (built with the same operations, so it is a reachable state)
-	init := verifrt.Choice("initial_validators", 3)
 	for o := 0; o < init; o++ {
 		_, err := w.ms.OptIntoAVS(sdk.WrapSDKContext(w.f.Ctx), &operatortypes.OptIntoAVSReq{FromAddress: verifenv.OperatorBech[o], AvsAddress: w.avs, PublicKeyJSON: keyJSON(o)})
 		verifrt.Assume(err == nil)
-		w.f.PutUSDValue(w.avs, o, operatortypes.OperatorOptedUSDValue{SelfUSDValue: sdkmath.LegacyNewDec(10), TotalUSDValue: sdkmath.LegacyNewDec(10), ActiveUSDValue: sdkmath.LegacyNewDec(int64(10 + o))})
 		w.current[o] = o
 	}
 	if init > 0 {
@@ -400,6 +404,14 @@ func VerifC07KeyRegistry() {
 		}
 		w.check()
 	}
+}
+
+// VerifC07KeyRegistry: a bounded sequence of opt-in-with-key, key replacement, opt-out and epoch
+// end operations by two operators over three keys, through the real message server, operator
+// keeper, dogfood hooks and dogfood EndBlock; the registry invariant is asserted after every step.
+func VerifC07KeyRegistry() {
+	w := setup()
+	w.bootstrap(verifrt.Choice("initial_validators", 3))
 	w.withUndelegations = verifrt.Param("undelegations", 0) == 1
 	steps := verifrt.Param("steps", 3)
 	for t := 0; t < steps; t++ {
